@@ -285,6 +285,9 @@ def g1_discharged(st, kind, what, fn_summ):
         tbl = enum_table_index(st)
         if tbl:
             return tbl
+        ec = enumerate_counter_index(base, idx)
+        if ec:
+            return ec
         pos = position_index(idx)
         if pos is not None and known_some(pc, pos[0]):
             # tokens[i], tokens[..i], tokens[i+1..]: i is a valid position of the same slice
@@ -326,6 +329,34 @@ def g1_discharged(st, kind, what, fn_summ):
 
 
 _PROG = None
+
+
+def enumerate_counter_index(base, idx):
+    """xs[..i], xs[i], xs[i + 1..] with i the counter of `xs.iter().enumerate()`: i < xs.len() for every element that is produced."""
+    import norm as _norm
+
+    def counter_of(t):
+        if t[0] == "tproj" and str(t[2]) == "0" and t[1][0] == "elem":
+            src = _norm.strip_adapters(t[1][1])
+            if src[0] == "call" and last(src[1]) == "enumerate" and len(src[2]) == 1:
+                return _norm.strip_adapters(src[2][0])
+        return None
+    b = _norm.strip_adapters(base)
+    if terms.contains(b, lambda z: z[0] in ("mut", "loopvar", "mu")):
+        return None
+    i = None
+    if idx[0] == "struct":
+        d = dict(idx[2])
+        if str(idx[1]).endswith("RangeTo"):
+            i = d.get("end")
+        elif str(idx[1]).endswith("RangeFrom"):
+            s_ = d.get("start", ())
+            i = s_[2] if s_ and s_[0] == "bin" and s_[1] == "+" and s_[3] == ("lit", 1) else s_
+    else:
+        i = idx
+    if isinstance(i, tuple) and i and counter_of(i) == b:
+        return "the index is the counter of an enumeration of the same slice (i < len)"
+    return None
 
 
 def enum_table_index(st):
@@ -752,6 +783,10 @@ def run(prog, rep):
                 rep.ok("C14-R1", ikey, st.where(), "G1: " + g1)
                 continue
             e = table.get(key)
+            if e is None and kind == "index":
+                # `m[k]` / `xs[i]` panic exactly when `m.get(k).unwrap()` / `xs.get(i).unwrap()` do: the same reviewed reason applies
+                base_what = what[4:] if what.startswith("map:") else what.rsplit("[", 1)[0]
+                e = table.get(f"{stem}|unwrap|get({base_what})")
             if e is not None:
                 missing = [r for r in e.get("requires", []) if not prereq.get(r, False)]
                 if missing:
